@@ -288,7 +288,24 @@ def run(program, res, tier):
         res.fail_at("C27-S1", pl, "polars-partition", "no .over(...) derives from op.partition_by")
     for (n, c) in overs:
         guards = " ".join(unparse(b.cond) for b, _l in g2.lexical_guards(n))
-        if "op.windowed_situation" in guards and "is_literal" in guards:
+        # decided on the shape of the condition, not on its text: a conjunction of `op.windowed_situation` and negated `<term>.is_*` kind tests;
+        # any further conjunct takes .over(partition) away from some windowed terms, which are then computed over the whole table
+        conj = []
+        for b, _l in g2.lexical_guards(n):
+            if isinstance(b.stmt, ast.If):
+                conj.extend(b.cond.values if isinstance(b.cond, ast.BoolOp) and isinstance(b.cond.op, ast.And) else [b.cond])
+
+        def _kind_test(e):
+            if isinstance(e, ast.UnaryOp) and isinstance(e.op, ast.Not):
+                atoms = e.operand.values if isinstance(e.operand, ast.BoolOp) and isinstance(e.operand.op, ast.Or) else [e.operand]
+                return all(isinstance(a_, ast.Attribute) and a_.attr.startswith("is_") for a_ in atoms)
+            return False
+        foreign_c = [e for e in conj if not (unparse(e) == "op.windowed_situation" or _kind_test(e))]
+        if "op.windowed_situation" in guards and "is_literal" in guards and foreign_c:
+            res.fail_at("C27-S4", pl, "polars-over-narrowed",
+                        f".over(partition) is applied only if also `{unparse(foreign_c[0])[:70]}`: a windowed term for which that is false is computed over the whole table "
+                        f"instead of its partition", foreign_c[0])
+        elif "op.windowed_situation" in guards and "is_literal" in guards:
             res.ok("C27-S4", "Polars: every non-literal/column term of a windowed extend gets .over(partition)")
         else:
             res.fail_at("C27-S4", pl, "polars-over-conditional", f".over(...) is applied under `{guards[:80]}`", c)
